@@ -96,6 +96,7 @@ Next == \E l \in Letters : Do(l)
 \* followed for the first ticks only)
 Bound == /\ \A k \in 1..Len(n.hc) : n.hc[k].ev <= EvCap
          /\ (n.hbRem <= 8 \/ n.hbRem >= n.hbT - 2)
+         /\ \A k \in 1..Len(n.hc) : (n.hc[k].rem <= 8 \/ n.hc[k].rem >= n.hc[k].time - 2)
 InvC20 == gh.c20
 InvC09 == gh.c09
 InvC10 == gh.c10
